@@ -398,6 +398,10 @@ def run_check(prop, tier, seed, only=None, nproc=None, verbose=True):
     if tier == 'thorough':
       j.setdefault('witness_fraction', 1.0)
       j.setdefault('witness_max', 400)
+      # the thorough tier validates every path on the real stack and may share
+      # the machine with other checks: a job gets three times its budget (at
+      # least ten minutes) before it is reported as not completed
+      j['budget_s'] = max(3 * j.get('budget_s', 120), 600)
   nproc = nproc or int(os.environ.get('VERIF_NPROC', '0')) or min(
       16, os.cpu_count() or 4)
   nproc = max(1, min(nproc, len(jobs)))
